@@ -20,6 +20,7 @@ import ScadVerif.Props.C03
 import ScadVerif.Props.C05
 import ScadVerif.Props.C07
 import ScadVerif.Lemmas.MeshLemmas
+import ScadVerif.Lemmas.ThreadClosed
 namespace ScadVerif.C04
 open ScadVerif ScadVerif.Dim3 ScadVerif.Dim3.Polyhedron ScadVerif.Spec ScadVerif.MeshLemmas ScadVerif.TriLemmas
 
@@ -918,5 +919,14 @@ theorem cylinder_volume (r height : ℝ) (hr : 0 < r) (hh : 0 < height) (seg : N
 /-- non-vacuity of the certificate: the two triangles of a square tile its ring -/
 example : CapTiles 4 0 true [[0, 1, 2], [0, 2, 3]] :=
   ⟨[(2, 0)], by decide⟩
+
+/-- **the thread and rod meshes inside threaded parts are closed, consistently oriented surfaces**:
+every mesh `threaded_cylinder` builds — any diameters, pitch, length, segment count, lead-in/out
+angle, either hand — satisfies `closedOriented` (Lemmas/ThreadClosed.lean: telescoping of the
+four-vertex rings, no directed edge twice). -/
+theorem threadMesh_closedOriented (dMin dMaj pitch length : ℝ) (segments : Nat) (li lo : ℝ) (left : Bool)
+    (m : Thread.Mesh ℝ) (h : Thread.threadMesh dMin dMaj pitch length segments li lo left = some m) :
+    closedOriented m.points.length m.faces = true :=
+  ThreadClosed.threadMesh_closedOriented dMin dMaj pitch length segments li lo left m h
 
 end ScadVerif.C04
